@@ -21,6 +21,14 @@ covariate effects on the same parameter (_run_cov2: every ordered pair of operat
 with the documented composition); add_iiv / remove_iiv on statements with an exponential of a sum, an
 intermediate statement or a re-assignment (models with IOV or an exponential covariate effect).
 
+Appended in a later round (again after the existing cases): bounded_refactorings: models whose compartmental
+system has a zero-order input (PD, TMDD, set_zero_order_input) with the in-memory refactorings, rename_symbols
+over every symbol of the compartmental system of every variant, initial conditions A_X(0) compared.
+bounded_structural_setters: MFL statement lists turned into feature functions (run_mfl_case: key sets and the
+transformation behind every key against the setter call the key names).  bounded_extensions: add_allometry
+when a subset of the parameters is skipped (exponent and bounds per parameter), remove_iov with an explicit eta
+list after sequences of add_iov calls (_run_remove_iov_sel).
+
 All three evaluate the REAL pharmpy functions over an exhaustively enumerated finite domain and compare
 with an independent reference that lives in this file: a per-statement numeric interpreter of a model
 (`eval_model`), which walks the statements in order, looks symbols up in an environment of inputs
@@ -298,6 +306,18 @@ def _expm(M):
 _NO_BRANCH = sympy.Float(-7.25e77)
 
 
+def _initial_condition_key(symbol):
+    """'A_X(0)' for an assignment target A_X(<number>) (initial condition of a compartment amount), else None"""
+    s = _sp(symbol)
+    if isinstance(s, AppliedUndef) and s.args and all(a.is_number for a in s.args):
+        return f"{s.func.__name__}({','.join(str(a) for a in s.args)})"
+    return None
+
+
+def _is_initial_condition_name(name):
+    return isinstance(name, str) and name.endswith(')') and '(' in name
+
+
 def eval_model(model, point, amounts='input'):
     """walk the statements in order.  Returns (defined: name -> value of its LAST assignment,
     signature of the compartmental system or None, env at the end).
@@ -317,6 +337,11 @@ def eval_model(model, point, amounts='input'):
     sig = None
     for s in model.statements:
         if isinstance(s, Assignment):
+            ic = _initial_condition_key(s.symbol)
+            if ic is not None:
+                # A_X(0) = expr: the initial condition of a compartment amount, not a value of A_X(t)
+                defined[ic] = num(s.expression, env)
+                continue
             k = _sname(s.symbol)
             e = _sp(s.expression)
             if isinstance(e, sympy.Piecewise) and e.args[-1][1] != sympy.true:
@@ -505,7 +530,39 @@ def _variants():
         'add_iiv_S1_0_fix_joint_fix_covariances_to_0': lambda m: (lambda j: P.fix_parameters_to(
             j, _blocks_with_zero_covariances(j)))(P.fix_parameters_to(P.add_iiv(P.create_joint_distribution(
                 m, individual_estimates=None), 'S1', 'exp'), {'IIV_S1': 0})),
+        # compartmental systems in which a compartment has a zero-order input (Compartment.input): PD and TMDD
+        # models, set_zero_order_input with an expression of an individual parameter and a covariate / of a
+        # theta (estimated or fixed) that occurs nowhere else
+        'add_effect_compartment_linear': lambda m: P.add_effect_compartment(m, 'linear'),
+        'add_effect_compartment_emax': lambda m: P.add_effect_compartment(m, 'emax'),
+        'add_effect_compartment_sigmoid': lambda m: P.add_effect_compartment(m, 'sigmoid'),
+        'add_indirect_effect_linear_production': lambda m: P.add_indirect_effect(m, 'linear', True),
+        'add_indirect_effect_linear_degradation': lambda m: P.add_indirect_effect(m, 'linear', False),
+        'add_indirect_effect_emax_production': lambda m: P.add_indirect_effect(m, 'emax', True),
+        'add_indirect_effect_sigmoid_degradation': lambda m: P.add_indirect_effect(m, 'sigmoid', False),
+        'set_tmdd_full': lambda m: P.set_tmdd(m, 'full'),
+        'set_tmdd_ib': lambda m: P.set_tmdd(m, 'ib'),
+        'set_tmdd_cr': lambda m: P.set_tmdd(m, 'cr'),
+        'set_tmdd_crib': lambda m: P.set_tmdd(m, 'crib'),
+        'set_tmdd_qss': lambda m: P.set_tmdd(m, 'qss'),
+        'set_tmdd_wagner': lambda m: P.set_tmdd(m, 'wagner'),
+        'set_tmdd_mmapp': lambda m: P.set_tmdd(m, 'mmapp'),
+        'set_zero_order_input_parameter': lambda m: P.set_zero_order_input(
+            m, m.statements.ode_system.central_compartment.name, f'CL*{_weight_column(m)}/10'),
+        'set_zero_order_input_theta': lambda m: P.set_zero_order_input(
+            P.add_population_parameter(m, 'POP_RIN', 0.5, lower=0.0),
+            m.statements.ode_system.central_compartment.name, f'POP_RIN*{_weight_column(m)}'),
+        'set_zero_order_input_fixed_theta': lambda m: P.set_zero_order_input(
+            P.add_population_parameter(m, 'POP_RIN', 0.5, fix=True),
+            m.statements.ode_system.central_compartment.name, f'POP_RIN*{_weight_column(m)}'),
     }
+
+
+def _weight_column(model):
+    for c in ('WGT', 'WT'):
+        if c in model.datainfo.names:
+            return c
+    raise ValueError('no weight column')
 
 
 def _blocks_with_zero_covariances(model):
@@ -550,6 +607,59 @@ _OMEGA_REFACTORINGS = {
                  'split_joint_distribution', 'mu_reference_model', 'make_declarative', 'greekify_model',
                  'create_joint_distribution', 'simplify_expression', 'convert_model_generic'),
 }
+# models whose compartmental system has a compartment with a zero-order input; appended after the cases above
+# with the refactorings that rewrite the statements in memory (substitution into the compartmental system,
+# dependency analysis) and rename_symbols over every symbol that occurs in the compartmental system.  (Writing
+# NONMEM code for these PD / TMDD models is a different function and not part of this family.)
+_INPUT_VARIANTS = {
+    'quick': [
+        ('pheno', ['add_effect_compartment_linear', 'add_indirect_effect_linear_production',
+                   'add_indirect_effect_linear_degradation', 'set_tmdd_full', 'set_tmdd_qss',
+                   'set_zero_order_input_parameter', 'set_zero_order_input_theta',
+                   'set_zero_order_input_fixed_theta']),
+        ('moxo', ['set_zero_order_input_parameter', 'set_zero_order_input_theta']),
+    ],
+    'thorough': [
+        ('pheno', ['add_effect_compartment_linear', 'add_indirect_effect_linear_production',
+                   'add_indirect_effect_linear_degradation', 'set_tmdd_full', 'set_tmdd_qss',
+                   'set_zero_order_input_parameter', 'set_zero_order_input_theta',
+                   'set_zero_order_input_fixed_theta', 'add_effect_compartment_emax',
+                   'add_effect_compartment_sigmoid', 'add_indirect_effect_emax_production',
+                   'add_indirect_effect_sigmoid_degradation', 'set_tmdd_ib', 'set_tmdd_cr', 'set_tmdd_crib',
+                   'set_tmdd_wagner', 'set_tmdd_mmapp']),
+        ('moxo', ['set_zero_order_input_parameter', 'set_zero_order_input_theta', 'set_zero_order_input_fixed_theta',
+                  'set_tmdd_full', 'set_tmdd_qss', 'set_tmdd_mmapp']),
+    ],
+}
+_INPUT_REFACTORINGS = ('mu_reference_model', 'make_declarative', 'cleanup_model', 'greekify_model',
+                       'greekify_model_named', 'remove_unused_parameters_and_rvs', 'replace_fixed_thetas',
+                       'replace_non_random_rvs', 'convert_model_generic', 'simplify_expression')
+
+
+def ode_symbol_names(model):
+    """names of the symbols that occur anywhere in the compartmental system (flow rates, zero-order inputs, lag
+    times, bioavailabilities, dose amounts / rates / durations) and that a renaming can address: parameters,
+    random variables and symbols assigned by the model code (not data columns, not t).  Read from the graph."""
+    from pharmpy.model import Compartment
+
+    cs = model.statements.ode_system
+    if cs is None:
+        return []
+    exprs = []
+    for c in cs._g.nodes:
+        if isinstance(c, Compartment):
+            exprs += [c.input, c.lag_time, c.bioavailability]
+            for d in c.doses:
+                exprs += [getattr(d, a) for a in ('amount', 'rate', 'duration') if getattr(d, a, None) is not None]
+    for _, _, d in cs._g.edges(data=True):
+        exprs.append(d['rate'])
+    names = set()
+    for e in exprs:
+        names |= {x.name for x in _sp(e).free_symbols}
+    ok = set(model.parameters.names) | set(model.random_variables.names) | set(_assigned_names(model))
+    return sorted(n for n in names if n in ok and n not in model.datainfo.names and n != 't')
+
+
 # synthetic $PRED models with inter-occasion variability for the extractors and evaluators: (covariates, etas
 # on the IIV level, occasions)
 _SYNTH_IOV_BOUNDS = {'quick': ((0, 2), (1, 2, 3), (2, 3)), 'thorough': ((0, 2, 5), (1, 2, 3, 4), (2, 3, 4))}
@@ -1057,6 +1167,31 @@ def refactoring_cases(tier):
         for variant in variants:
             for r in _OMEGA_REFACTORINGS[tier]:
                 cases.append({'model': base, 'variant': variant, 'refactoring': r, 'arg': None})
+    # compartmental systems with a zero-order input: the in-memory refactorings, and rename_symbols over every
+    # symbol that occurs in the compartmental system
+    for base, variants in _INPUT_VARIANTS[tier]:
+        for variant in variants:
+            try:
+                m = variant_model(base, variant)
+            except Exception:
+                cases.append({'model': base, 'variant': variant, 'refactoring': 'none', 'arg': None})
+                continue
+            for r in _INPUT_REFACTORINGS:
+                cases.append({'model': base, 'variant': variant, 'refactoring': r, 'arg': None})
+            for s in ode_symbol_names(m):
+                cases.append({'model': base, 'variant': variant, 'refactoring': 'rename_symbols', 'arg': s})
+    # rename_symbols over the symbols of the compartmental system of the earlier variants, as far as they are
+    # not renamed above (thorough tier: every symbol is renamed above)
+    for base, variants in _BASE_VARIANTS_QUICK:
+        for variant in variants:
+            try:
+                m = variant_model(base, variant)
+            except Exception:
+                continue
+            done = set(_rename_targets(m, tier, variant))
+            for s in ode_symbol_names(m):
+                if s not in done:
+                    cases.append({'model': base, 'variant': variant, 'refactoring': 'rename_symbols', 'arg': s})
     return cases
 
 
@@ -1192,6 +1327,26 @@ def _compare_models(m0, m1, ref, pts, ren, cmap, dvs, ips, solve, ip_must_stay=T
             elif not close(d0[p], d1[p1]):
                 fail('ip', 'individual parameters have the same value at every grid point',
                      f'{p}: {d0[p]!r} before, {d1[p1]!r} after, at point {k} {_short_pt(pt)}')
+        if not solve:
+            # initial conditions A_X(0) = ... of the compartment amounts are part of the ODE system
+            for ic, v0 in d0.items():
+                if not _is_initial_condition_name(ic) or _isbad(v0):
+                    continue
+                nm, arg = ic[:-1].split('(', 1)
+                ic1 = f'{full_ren.get(nm, nm)}({arg})'
+                if ic1 not in d1:
+                    fail('icdef', 'initial conditions of the compartment amounts are the same (up to renaming of '
+                         'compartments)', f'{ic} = {v0!r} before, no assignment of {ic1} after')
+                elif not close(v0, d1[ic1]):
+                    fail('ic', 'initial conditions of the compartment amounts are the same (up to renaming of '
+                         'compartments)', f'{ic}: {v0!r} before, {d1[ic1]!r} after, at point {k} {_short_pt(pt)}')
+            for ic1 in d1:
+                if _is_initial_condition_name(ic1) and not _isbad(d1[ic1]) and d1[ic1] != 0:
+                    inv = {b: a for a, b in full_ren.items()}
+                    nm, arg = ic1[:-1].split('(', 1)
+                    if f'{inv.get(nm, nm)}({arg})' not in d0:
+                        fail('icnew', 'initial conditions of the compartment amounts are the same (up to renaming '
+                             'of compartments)', f'{ic1} = {d1[ic1]!r} after, no such initial condition before')
         if solve:
             for a, v in ode_reference_amounts(sig0, env0['t']).items():
                 if a not in d1:
@@ -1726,6 +1881,12 @@ def bounded_refactorings(tier):
                 variant_model(base, v)
             except Exception:
                 pass
+    for base, variants in _INPUT_VARIANTS[tier]:
+        for v in variants:
+            try:
+                variant_model(base, v)
+            except Exception:
+                pass
     cases = refactoring_cases(tier)
     results = _pool_map(_refactoring_worker, [(c, tier) for c in cases])
     nontriv, fails = _collect(results, 'bounded_refactorings_replay')
@@ -1754,7 +1915,13 @@ def bounded_refactorings(tier):
                  f'({len(omega_specs())} structures: all compositions into consecutive blocks x (diagonal element estimated '
                  f'/ FIX / 0 FIX; block estimated / FIX with every pattern of covariances that are exactly 0 / all 0 FIX)) '
                  f'and on {sum(len(v) for _, v in _BASE_VARIANTS_OMEGA)} variants of pheno and moxo with a fixed joint '
-                 f'distribution whose covariances are 0',
+                 f'distribution whose covariances are 0; {sum(len(v) for _, v in _INPUT_VARIANTS[tier])} variants of pheno '
+                 f'and moxo whose compartmental system has a zero-order input (effect compartment, indirect response, '
+                 f'TMDD, set_zero_order_input with an individual parameter / an estimated / a fixed theta: '
+                 f'{", ".join(b + "/" + v for b, vs in _INPUT_VARIANTS[tier] for v in vs)}) x {len(_INPUT_REFACTORINGS)} '
+                 f'in-memory refactorings ({", ".join(_INPUT_REFACTORINGS)}) and rename_symbols over every symbol that '
+                 f'occurs in the compartmental system (rates, inputs, lag times, bioavailabilities, doses), the latter '
+                 f'also for the {nvar} models above; initial conditions A_X(0) of the amounts are compared as well',
         'samples': [repr(cases[i]) for i in (0, len(cases) // 2, len(cases) - 1)],
         'fails': fails,
     }
@@ -1943,6 +2110,80 @@ def extension_cases(tier):
     for mname, variant, targets in _EXP_SUM_REMOVE:
         for tg in targets:
             cases.append({'family': 'remove_iiv', 'model': mname, 'variant': variant, 'target': tg})
+    # add_allometry on models in which a subset of the clearance / volume parameters already has an effect of the
+    # allometric variable (those are skipped): default parameter list, explicit lists in both orders, with the
+    # default exponents and with a different exponent and different bounds requested for every listed parameter
+    for mname, pre, var, cands, subsets, plists, fixeds in _allometry_skip_domain(tier):
+        for sub in subsets:
+            variant = f"cov_on:{var}:{'+'.join(sub)}" + (f':{pre}' if pre else '')
+            for pl, explicit in plists:
+                pars = None if pl is None else (list(cands) if pl == 'forward' else list(cands[::-1]))
+                for fixed in fixeds:
+                    cases.append({'family': 'allometry', 'model': mname, 'variant': variant, 'variable': var,
+                                  'reference_value': 70, 'parameters': pars, 'fixed': fixed, 'explicit': explicit})
+    # remove_iov with an explicit list of etas on models with several IOV extensions
+    cases.extend(remove_iov_sel_cases(tier))
+    return cases
+
+
+def _allometry_skip_domain(tier):
+    all_plists = [(None, False), ('forward', False), ('reversed', False), ('forward', True), ('reversed', True)]
+    pheno = ['CL', 'VC']
+    periph = ['CL', 'QP1', 'V', 'VP1']
+    pperiph = ['CL', 'QP1', 'VC', 'VP1']
+
+    def subsets(c):
+        return [[p for i, p in enumerate(c) if bits >> i & 1] for bits in range(2 ** len(c))]
+
+    if tier == 'thorough':
+        return [('pheno', None, 'WGT', pheno, subsets(pheno), all_plists, (True, False)),
+                ('moxo', 'add_peripheral_compartment', 'WT', periph, subsets(periph), all_plists, (True, False)),
+                ('pheno', 'add_peripheral_compartment', 'WGT', pperiph, subsets(pperiph), all_plists, (True, False))]
+    return [('pheno', None, 'WGT', pheno, subsets(pheno), all_plists, (True, False)),
+            ('moxo', 'add_peripheral_compartment', 'WT', periph, [[p] for p in periph] + [['CL', 'V']],
+             [(None, False), ('forward', True), ('reversed', True)], (True,))]
+
+
+_IOV_SEQUENCES = {
+    'quick': [[[['CL'], 'disjoint'], [['VC'], 'disjoint']],
+              [[['CL', 'VC'], 'disjoint']],
+              [[['CL', 'VC'], 'joint']],
+              [[['CL', 'VC'], 'same-as-iiv']],
+              [[['CL'], 'disjoint']],
+              [[None, 'disjoint']]],
+    'thorough': [[[['CL'], 'disjoint'], [['VC'], 'disjoint']],
+                 [[['CL', 'VC'], 'disjoint']],
+                 [[['CL', 'VC'], 'joint']],
+                 [[['CL', 'VC'], 'same-as-iiv']],
+                 [[['CL'], 'disjoint']],
+                 [[None, 'disjoint']],
+                 [[['VC'], 'disjoint'], [['CL'], 'disjoint']],
+                 [[['CL'], 'joint'], [['VC'], 'joint']],
+                 [[['CL'], 'same-as-iiv'], [['VC'], 'disjoint']],
+                 [[None, 'joint']],
+                 [[None, 'same-as-iiv']]],
+}
+
+
+def remove_iov_sel_cases(tier):
+    cases = []
+    sels = [['group', g, w] for g in (0, 1) for w in ('first', 'last', 'all')] + [['every'], None]
+    variants = ('none', 'equal_iiv_inits') + (('add_iiv_S1',) if tier == 'thorough' else ())
+    for variant in variants:
+        for steps in _IOV_SEQUENCES[tier]:
+            for sel in sels:
+                cases.append({'family': 'remove_iov_sel', 'model': 'pheno', 'variant': variant, 'occ': 'FA1',
+                              'steps': steps, 'to_remove': sel})
+    if tier == 'thorough':
+        # an occasion column with 10 categories (10 etas per parameter)
+        for steps in _IOV_SEQUENCES[tier][:4]:
+            for sel in sels:
+                cases.append({'family': 'remove_iov_sel', 'model': 'pheno', 'variant': 'equal_iiv_inits',
+                              'occ': 'APGR', 'steps': steps, 'to_remove': sel})
+    # the IOV that moxo comes with (two parameters, BLOCK SAME over two occasions)
+    for sel in sels:
+        cases.append({'family': 'remove_iov_sel', 'model': 'moxo', 'variant': 'none', 'occ': 'VISI', 'steps': [],
+                      'to_remove': sel})
     return cases
 
 
@@ -1967,7 +2208,39 @@ def _ext_variant(case):
             m = pm().remove_covariate_effect(m, 'VC', 'WGT')
             _MODEL_CACHE[key] = m
         return _MODEL_CACHE[key]
+    if variant.startswith('cov_on:') or variant == 'equal_iiv_inits':
+        key = (base, variant)
+        if key not in _MODEL_CACHE:
+            _MODEL_CACHE[key] = _build_ext_variant(base, variant)
+        return _MODEL_CACHE[key]
     return variant_model(base, variant)
+
+
+def _build_ext_variant(base, variant):
+    P = pm()
+    if variant == 'equal_iiv_inits':
+        # every IIV variance that is a distribution of its own gets the same initial estimate (the default of
+        # add_iiv / add_pk_iiv)
+        m = base_model(base)
+        names = [_sp(d.variance).name for d in m.random_variables.iiv if len(d.names) == 1]
+        return P.set_initial_estimates(m, {n: 0.09 for n in names})
+    # 'cov_on:<covariate>:<P1+P2..>[:<earlier transformation>]': exactly the listed parameters (of the clearance
+    # and volume parameters) have an effect of the covariate
+    parts = variant.split(':')
+    var, listed = parts[1], [x for x in parts[2].split('+') if x]
+    m = base_model(base)
+    if len(parts) > 3:
+        m = _variants()[parts[3]](m)
+    for par in _allometry_candidates(m):
+        if _depends_numerically(m, par, var):
+            m = P.remove_covariate_effect(m, par, var)
+    for par in listed:
+        m = P.add_covariate_effect(m, par, var, 'exp')
+    return m
+
+
+def _allometry_candidates(model):
+    return [p for p in _observables(model)[1] if p.startswith(('CL', 'V', 'Q'))]
 
 
 _DOC_EXC = (ValueError, NotImplementedError)
@@ -2748,6 +3021,152 @@ def _run_remove_iov(case, K):
     return {'nontrivial': bool(iov), 'fails': fail.items}
 
 
+def iov_groups_ref(model, occ, iov_names, K=2):
+    """reference for 'the same inter-occasion variability on the other occasions': the IOV etas grouped by the set
+    of individual parameters they change (found numerically: all IOV etas 0, one of them 0.23, on every occasion).
+    Returns (groups in order of first appearance, the parameters of each group)"""
+    ips = _observables(model)[1]
+    cats = sorted(set(float(x) for x in model.dataset[occ].unique()))
+    sig = {e: set() for e in iov_names}
+    for pt in _grid(model, K):
+        for c in cats:
+            z = dict(pt)
+            z[occ] = c
+            for e in iov_names:
+                z[e] = 0.0
+            r0 = _eval_or_none(model, z)
+            if r0 is None:
+                continue
+            for e in iov_names:
+                z1 = dict(z)
+                z1[e] = 0.23
+                r1 = _eval_or_none(model, z1)
+                if r1 is None:
+                    continue
+                for n in ips:
+                    if n in r0[0] and n in r1[0] and not _isbad(r0[0][n]) and not close(r0[0][n], r1[0][n]):
+                        sig[e].add(n)
+    groups = []
+    for e in iov_names:
+        k = frozenset(sig[e])
+        for g in groups:
+            if g[0] == k:
+                g[1].append(e)
+                break
+        else:
+            groups.append((k, [e]))
+    return [g[1] for g in groups], [sorted(g[0]) for g in groups]
+
+
+def _iov_sequence_models(case):
+    """[start model, model after the first add_iov, ...] (cached)"""
+    key = ('iov_seq', case['model'], case.get('variant', 'none'), case['occ'], repr(case['steps']))
+    if key not in _MODEL_CACHE:
+        m = _ext_variant(case)
+        models = [m]
+        for pars, dist in case['steps']:
+            m = pm().add_iov(m, case['occ'], pars, distribution=dist)
+            models.append(m)
+        _MODEL_CACHE[key] = models
+    return _MODEL_CACHE[key]
+
+
+def _run_remove_iov_sel(case, K):
+    P = pm()
+    fid = _fid(P.remove_iov)
+    occ, sel = case['occ'], case['to_remove']
+    steps = ' ; '.join(f'add_iov({occ},{p},{d})' for p, d in case['steps'])
+    try:
+        models = _iov_sequence_models(case)
+    except Exception as e:
+        # add_iov is under contract in the family 'iov'
+        return {'nontrivial': False, 'fails': [], 'note': f'start model not buildable: {e!r}'}
+    m0 = models[-1]
+    iov = list(m0.random_variables.iov.names)
+    groups, gpars = iov_groups_ref(m0, occ, iov)
+    if sel is None:
+        names, expected, what = None, set(iov), 'None'
+    elif sel[0] == 'every':
+        names, expected, what = list(iov), set(iov), 'every IOV eta'
+    else:
+        if sel[1] >= len(groups):
+            return {'nontrivial': False, 'fails': []}
+        g = groups[sel[1]]
+        names = {'first': g[0], 'last': g[-1:], 'all': list(g)}[sel[2]]     # 'first': a single name as a string
+        expected = set(g)
+        what = f'{names} (IOV of {gpars[sel[1]]})'
+    fail = _Fails(fid, f"{case['model']}/{case.get('variant', 'none')} {steps + ' ; ' if steps else ''}"
+                       f"remove_iov({what})")
+    snap = _snapshot(m0)
+    try:
+        m1 = P.remove_iov(m0, names)
+    except Exception as e:
+        fail('completes without an undocumented exception', _exc_detail(e))
+        return {'nontrivial': True, 'fails': fail.items}
+    if not all(a == b for a, b in zip(snap, _snapshot(m0))):
+        fail('input model is not modified', 'input model changed')
+    removed = set(m0.random_variables.names) - set(m1.random_variables.names)
+    added = set(m1.random_variables.names) - set(m0.random_variables.names)
+    if removed != expected or added:
+        fail('exactly the named IOV etas and the etas of the same inter-occasion variability on the other occasions '
+             'are removed',
+             f'removed {sorted(removed)}, expected {sorted(expected)}; IOV etas by parameter: '
+             f'{dict(zip(map(str, gpars), groups))}; initial estimates of their variances: '
+             f'{ {n: v for n, v in _variances(m0, {p.name: float(p.init) for p in m0.parameters}).items() if n in iov} }')
+    dvs, ips = _observables(m0)
+    cats = sorted(set(float(x) for x in m0.dataset[occ].unique()))
+    pts = []
+    for j, pt in enumerate(_grid(m0, K)):
+        pts.append(pt)
+        if j < 2:
+            for c in cats:
+                q = dict(pt)
+                q[occ] = c
+                pts.append(q)
+    for pt in pts:
+        q = dict(pt)
+        for e in expected:
+            q[e] = 0.0
+        r0 = _eval_or_none(m0, q)
+        if r0 is None:
+            continue
+        try:
+            d1 = eval_model(m1, pt)[0]
+        except Undefined as e:
+            fail('every symbol used is defined', str(e))
+            break
+        bad = [n for n in dvs + ips if n in r0[0] and not _isbad(r0[0][n])
+               and (n not in d1 or not close(r0[0][n], d1[n], rtol=1e-7))]
+        if bad:
+            n = bad[0]
+            fail('model without the removed IOV etas equals the old model with these etas set to 0 (the other IOV '
+                 'etas keep acting)', f'{n}: expected {r0[0][n]!r}, got {d1.get(n)!r} at {_short_pt(pt)}')
+            break
+    try:
+        v0 = _variances(m0, {p.name: float(p.init) for p in m0.parameters})
+        v1 = _variances(m1, {p.name: float(p.init) for p in m1.parameters})
+        for n in m1.random_variables.names:
+            if n in v0 and not close(v0[n], v1[n]):
+                fail('the remaining random variables keep their variance', f'{n}: {v0[n]!r} -> {v1[n]!r}')
+                break
+    except (Undefined, KeyError) as e:
+        fail('the remaining random variables keep their variance', f'not evaluable: {e!r}')
+    if len(models) > 1:
+        last_new = set(m0.random_variables.names) - set(models[-2].random_variables.names)
+        if expected == last_new:
+            # remove(ext(M)) ~ M
+            prev = models[-2]
+            clause = 'remove_iov of the IOV added last restores the model before (function, random variables, parameters)'
+            if _unchanged(fail, clause, prev, m1, _grid(prev, K)):
+                if set(m1.random_variables.names) != set(prev.random_variables.names) \
+                        or set(m1.parameters.names) != set(prev.parameters.names):
+                    fail(clause, f'random variables {m1.random_variables.names} vs {prev.random_variables.names}; '
+                                 f'parameters {m1.parameters.names} vs {prev.parameters.names}')
+    if cs_symbolic(m0) != cs_symbolic(m1):
+        fail('compartmental system is not modified', 'changed')
+    return {'nontrivial': True, 'fails': fail.items}
+
+
 # -- eta transformations ---------------------------------------------------------------------------
 
 def ref_transform(tr, eta, th):
@@ -2845,13 +3264,24 @@ def _run_allometry(case, K):
         plist = cands[:1]
     elif sel == 'last':
         plist = cands[-1:]
+    elif isinstance(sel, list):
+        plist = list(sel)
     else:
         plist = None
+    kw = {}
+    requested = {}
+    if case.get('explicit') and plist is not None:
+        # a different exponent and different bounds for every listed parameter
+        kw = {'initials': [0.55 + 0.1 * i for i in range(len(plist))],
+              'lower_bounds': [0.05 + 0.01 * i for i in range(len(plist))],
+              'upper_bounds': [1.2 + 0.1 * i for i in range(len(plist))]}
+        requested = {p: (kw['initials'][i], kw['lower_bounds'][i], kw['upper_bounds'][i])
+                     for i, p in enumerate(plist)}
     fail = _Fails(fid, f"{case['model']}/{case.get('variant', 'none')} add_allometry({var}, ref={refv}, "
-                       f"parameters={plist}, fixed={fixed})")
+                       f"parameters={plist}, fixed={fixed}" + (f", {kw}" if kw else '') + ")")
     snap = _snapshot(m0)
     try:
-        m1 = P.add_allometry(m0, allometric_variable=var, reference_value=refv, parameters=plist, fixed=fixed)
+        m1 = P.add_allometry(m0, allometric_variable=var, reference_value=refv, parameters=plist, fixed=fixed, **kw)
     except Exception as e:
         fail('completes without an undocumented exception', _exc_detail(e))
         return {'nontrivial': True, 'fails': fail.items}
@@ -2898,6 +3328,26 @@ def _run_allometry(case, K):
                     fail('the allometric factor is 1 at the reference value',
                          f'{n}: {d0[n]!r} before, {d1.get(n)!r} after at {var}={refv}')
                     break
+    # the exponent T of every scaled parameter: "Default is to use 0.75 for CL and Qs and 1 for Vs", lower bound 0,
+    # upper bound 2, or what the caller listed for that parameter; a fixed exponent is part of the model function
+    for th in new_th:
+        p = th[len('ALLO_'):]
+        if not th.startswith('ALLO_') or p not in ips:
+            continue
+        want = requested.get(p, (0.75 if p.startswith(('CL', 'Q')) else 1.0, 0.0, 2.0))
+        par = m1.parameters[th]
+        got = (float(par.init), float(par.lower), float(par.upper))
+        if fixed:
+            if abs(got[0] - want[0]) > 1e-12:
+                fail('[fixed exponents] the scaled parameter equals P*(X/Z)**T with the documented exponent T (0.75 '
+                     'for clearances, 1 for volumes, or the value requested for that parameter)',
+                     f'{p}: exponent {th} fixed to {got[0]}, documented / requested for {p}: {want[0]}; already '
+                     f'depending on {var}: {[q for q in (plist or cands) if _depends_numerically(m0, q, var)]}')
+        elif any(abs(a - b) > 1e-12 for a, b in zip(got, want)):
+            fail('[estimated exponents] the exponent of each scaled parameter gets the initial estimate and bounds '
+                 'documented or requested for that parameter (0.75 for clearances, 1 for volumes, bounds 0 and 2)',
+                 f'{p}: {th} (init, lower, upper) = {got}, documented / requested for {p}: {want}; already '
+                 f'depending on {var}: {[q for q in (plist or cands) if _depends_numerically(m0, q, var)]}')
     want_targets = targets if targets is not None else [p for p in ips if p in ('CL', 'V', 'VC')]
     for p in want_targets:
         if not _depends_numerically(m0, p, var) and p not in scaled:
@@ -3401,7 +3851,8 @@ def _run_transit(case, K):
 # -- driver ------------------------------------------------------------------------------------------
 
 _EXT_RUNNERS = {'cov2': _run_cov2, 'cov': _run_cov, 'iiv': _run_iiv, 'remove_iiv': _run_remove_iiv, 'iov': _run_iov,
-                'remove_iov': _run_remove_iov, 'transform': _run_transform, 'allometry': _run_allometry,
+                'remove_iov': _run_remove_iov, 'remove_iov_sel': _run_remove_iov_sel, 'transform': _run_transform,
+                'allometry': _run_allometry,
                 'error': _run_error, 'error_dv': _run_error_dv, 'transit': _run_transit}
 
 
@@ -3458,7 +3909,19 @@ def bounded_extensions(tier):
                  f'{"all parameters x all ordered pairs of different covariates" if tier == "thorough" else "pheno CL x all 6 x 6 ordered pairs of effect kinds and moxo V x 3 x 3 (lin, exp, cat), one covariate per kind"} '
                  f'x all 4 ordered pairs of operations; add_iiv then remove_iiv on moxo CL (exponential with a sum inside) '
                  f'and remove_iiv by eta, by parameter and of all etas on moxo, pheno with IOV, pheno with an exponential '
-                 f'covariate effect on CL}} = {fam}; each at {K} grid points plus the reference/category/cutoff points',
+                 f'covariate effect on CL; add_allometry on models in which a subset of the clearance / volume parameters '
+                 f'already has an effect of the allometric variable ('
+                 + '; '.join(f'{mn}{" + " + pre if pre else ""}: {len(subs)} subsets of {cands} x parameter lists '
+                             + str([('default' if pl is None else pl + ' order')
+                                    + (' with an exponent and bounds requested per parameter' if ex else '')
+                                    for pl, ex in pls]).replace("'", '')
+                             + f' x fixed {list(fx)}' for mn, pre, _, cands, subs, pls, fx in _allometry_skip_domain(tier))
+                 + f'); remove_iov with an explicit eta list (first / last / all etas of the IOV of one parameter, every IOV '
+                 f'eta, None) on pheno as shipped and with equal IIV variances'
+                 f'{" and with a third IIV eta" if tier == "thorough" else ""} after {len(_IOV_SEQUENCES[tier])} sequences '
+                 f'of add_iov calls (two calls on one parameter each, one call on two parameters with each distribution, '
+                 f'one parameter, all) with the occasion column FA1{" (and APGR, 10 occasions, for the first 4 sequences with equal IIV variances)" if tier == "thorough" else ""}, and on '
+                 f'moxo}} = {fam}; each at {K} grid points plus the reference/category/cutoff points',
         'samples': [repr(cases[i]) for i in (0, len(cases) // 2, len(cases) - 1)],
         'fails': fails,
     }
@@ -3667,10 +4130,354 @@ def structural_cases(tier):
                         cats = {R[a][2][0], R[b][2][0], R[c][2][0]}
                         if len(cats) == 3:
                             cases.append({'model': mname, 'requests': [a, b, c]})
+    # MFL statement lists -> feature functions
+    cases.extend(mfl_cases(tier))
     return cases
 
 
+# -- MFL statement lists -> feature functions ----------------------------------------------------------
+#
+# The search tools do not call the setters directly: an MFL statement list is turned into a table
+# feature key -> function (pharmpy.tools.mfl.helpers.all_funcs / ModelFeatures.convert_to_funcs, built by
+# pharmpy/tools/mfl/feature/*.py) and the functions are applied to models.  Contract: the keys of a statement
+# list are exactly the features it describes (lists, ranges, wildcards expanded), and the function stored under
+# a key applies the transformation the key names -- the same model as the documented setter call written out by
+# hand below (or the same refusal) -- whatever else the statement list contains.  The setters themselves are
+# under the contract above; here the tables that tie requests to setters are.
+
+_MFL_MODES = {
+    'ABSORPTION': ('FO', 'ZO', 'SEQ-ZO-FO', 'INST'),
+    'ELIMINATION': ('FO', 'ZO', 'MM', 'MIX-FO-MM'),
+    'LAGTIME': ('ON', 'OFF'),
+    'DIRECTEFFECT': ('LINEAR', 'EMAX', 'SIGMOID'),
+    'EFFECTCOMP': ('LINEAR', 'EMAX', 'SIGMOID'),
+    'METABOLITE': ('PSC', 'BASIC'),
+}
+_MFL_KEY_NAME = {'DIRECTEFFECT': 'DIRECT', 'INDIRECTEFFECT': 'INDIRECT'}
+_MFL_MODULE = {'ABSORPTION': 'absorption', 'ELIMINATION': 'elimination', 'TRANSITS': 'transits',
+               'PERIPHERALS': 'peripherals', 'LAGTIME': 'lagtime', 'COVARIATE': 'covariate', 'ALLOMETRY': 'allometry',
+               'DIRECT': 'direct_effect', 'EFFECTCOMP': 'effect_comp', 'INDIRECT': 'indirect_effect',
+               'METABOLITE': 'metabolite'}
+_MFL_DEPOTS = ('DEPOT', 'NODEPOT')
+_MFL_PRODUCTION = ('DEGRADATION', 'PRODUCTION')
+_MFL_CONT_EFFECTS = ('lin', 'piece_lin', 'exp', 'pow')
+
+
+def _mfl_fid(key):
+    return f"src/pharmpy/tools/mfl/feature/{_MFL_MODULE.get(key[0], 'feature')}.py:features"
+
+
+def _mfl_opt(values, form, universe=None):
+    """(text of an option, values it stands for): form 'single' (one value), 'list', 'wildcard'"""
+    if form == 'wildcard':
+        return '*', list(universe)
+    if form == 'single':
+        return str(values[0]), [values[0]]
+    return '[' + ','.join(str(v) for v in values) + ']', list(values)
+
+
+def _mfl_simple(cat, form, values):
+    txt, vals = _mfl_opt(values, form, _MFL_MODES[cat])
+    return f'{cat}({txt})', [[_MFL_KEY_NAME.get(cat, cat), v] for v in vals]
+
+
+def _mfl_transits(counts_txt, counts, depot_txt, depots):
+    txt = f'TRANSITS({counts_txt})' if depot_txt is None else f'TRANSITS({counts_txt},{depot_txt})'
+    return txt, [['TRANSITS', n, d] for n in counts for d in depots]
+
+
+def _mfl_peripherals(counts_txt, counts, mode_txt, modes):
+    txt = f'PERIPHERALS({counts_txt})' if mode_txt is None else f'PERIPHERALS({counts_txt},{mode_txt})'
+    return txt, [['PERIPHERALS', n] if md == 'DRUG' else ['PERIPHERALS', n, 'METABOLITE']
+                 for n in counts for md in modes]
+
+
+def _mfl_indirect(mode_txt, modes, prod_txt, prods):
+    return f'INDIRECTEFFECT({mode_txt},{prod_txt})', [['INDIRECT', md, p] for md in modes for p in prods]
+
+
+def _mfl_covariate(pars, covs, fps, op, optional, let=None):
+    """COVARIATE statement; pars / covs / fps are lists (one element: written without brackets), fps None: *"""
+    def opt(v):
+        return v[0] if len(v) == 1 else '[' + ','.join(v) + ']'
+    ptxt = opt(pars)
+    pre = ''
+    if let:
+        pre = f'LET({let},{opt(pars)});'
+        ptxt = '@' + let
+    ftxt = '*' if fps is None else opt([f.upper() for f in fps])
+    txt = (pre + 'COVARIATE' + ('?' if optional else '') + f'({ptxt},{opt(covs)},{ftxt}'
+           + (f',{op}' if op is not None else '') + ')')
+    keys = []
+    for p in pars:
+        for c in covs:
+            for f in (_MFL_CONT_EFFECTS if fps is None else fps):
+                if optional:
+                    keys.append(['COVARIATE', p, c, f, op or '*', 'REMOVE'])
+                keys.append(['COVARIATE', p, c, f, op or '*', 'ADD'])
+    return txt, keys
+
+
+def _mfl_join(parts, sep=';'):
+    return sep.join(t for t, _ in parts), [k for _, ks in parts for k in ks]
+
+
+def mfl_strings(tier):
+    """[(group, class route too?, text, expected keys)]; group: which start models the string is applied to.
+    Built from descriptions, so that the expected keys do not come from pharmpy's parser."""
+    th = tier == 'thorough'
+    out = []
+    both = ('DEPOT', 'NODEPOT')
+    # one option list per category
+    for cat in ('ABSORPTION', 'ELIMINATION', 'LAGTIME'):
+        modes = _MFL_MODES[cat]
+        for md in modes:
+            out.append(('pk', th) + _mfl_simple(cat, 'single', [md]))
+        out.append(('pk', th) + _mfl_simple(cat, 'wildcard', modes))
+        if th:
+            out.append(('pk', th) + _mfl_simple(cat, 'list', modes))
+            out.append(('pk', th) + _mfl_simple(cat, 'list', modes[::-1]))
+            out.append(('pk', th) + _mfl_simple(cat, 'list', modes[1:3]))
+    # transits: counts x depot option (omitted = DEPOT)
+    depot_forms = [(None, ['DEPOT']), ('DEPOT', ['DEPOT']), ('NODEPOT', ['NODEPOT']),
+                   ('[DEPOT,NODEPOT]', list(both)), ('[NODEPOT,DEPOT]', list(both[::-1])), ('*', list(both))]
+    if th:
+        count_forms = [('0', [0]), ('1', [1]), ('3', [3]), ('[0,1,3]', [0, 1, 3]), ('1..2', [1, 2]), ('[3,1]', [3, 1])]
+        pairs = [(c, d) for c in count_forms for d in depot_forms]
+    else:
+        pairs = [(('1', [1]), d) for d in depot_forms]
+        pairs += [(('[0,1,3]', [0, 1, 3]), depot_forms[i]) for i in (0, 5, 4)]
+        pairs += [(('0', [0]), depot_forms[2]), (('3', [3]), depot_forms[1])]
+    for (ct, cv), (dt, dv) in pairs:
+        out.append(('pk_transits', True) + _mfl_transits(ct, cv, dt, dv))
+    # several statements of the category with different options, either order
+    for d1, d2 in ((both[0], both[1]), (both[1], both[0])):
+        out.append(('pk_transits', True) + _mfl_join([_mfl_transits('1', [1], d1, [d1]),
+                                                      _mfl_transits('3', [3], d2, [d2])]))
+        out.append(('pk_transits', True) + _mfl_join([_mfl_transits('1', [1], d1, [d1]),
+                                                      _mfl_transits('1', [1], d2, [d2])]))
+    # peripherals: counts x compartment option (omitted = DRUG)
+    pcounts = [('1', [1]), ('0..2', [0, 1, 2])] + ([('0', [0]), ('2', [2]), ('[0,1]', [0, 1])] if th else [])
+    for ct, cv in pcounts:
+        out.append(('pk', True) + _mfl_peripherals(ct, cv, None, ['DRUG']))
+    out.append(('met', True) + _mfl_peripherals('1', [1], 'MET', ['MET']))
+    out.append(('met', True) + _mfl_peripherals('0..1', [0, 1], '*', ['DRUG', 'MET']))
+    if th:
+        out.append(('met', True) + _mfl_peripherals('1', [1], 'DRUG', ['DRUG']))
+        out.append(('met', True) + _mfl_peripherals('[0,1]', [0, 1], '[MET,DRUG]', ['MET', 'DRUG']))
+        out.append(('met', True) + _mfl_join([_mfl_peripherals('0', [0], 'MET', ['MET']),
+                                              _mfl_peripherals('1', [1], 'DRUG', ['DRUG'])]))
+    # a whole search space (the default of modelsearch, with both depot modes), ';' and newline as separator
+    space = [_mfl_simple('ABSORPTION', 'list', ['FO', 'ZO', 'SEQ-ZO-FO']), _mfl_simple('ELIMINATION', 'single', ['FO']),
+             _mfl_simple('LAGTIME', 'list', ['OFF', 'ON']), _mfl_transits('[0,1,3]', [0, 1, 3], '*', list(both)),
+             _mfl_peripherals('0..1', [0, 1], None, ['DRUG'])]
+    out.append(('pk_transits', True) + _mfl_join(space))
+    if th:
+        out.append(('pk_transits', True) + _mfl_join(space[::-1], '\n'))
+    # PD models and metabolite
+    for cat in ('DIRECTEFFECT', 'EFFECTCOMP', 'METABOLITE'):
+        modes = _MFL_MODES[cat]
+        for md in (modes if th else modes[:1]):
+            out.append(('pd', th) + _mfl_simple(cat, 'single', [md]))
+        out.append(('pd', th) + _mfl_simple(cat, 'wildcard', modes))
+        if th:
+            out.append(('pd', th) + _mfl_simple(cat, 'list', modes[::-1]))
+    pd_modes = _MFL_MODES['DIRECTEFFECT']
+    prod_forms = [('PRODUCTION', ['PRODUCTION']), ('DEGRADATION', ['DEGRADATION']), ('*', list(_MFL_PRODUCTION))]
+    if th:
+        mode_forms = [(md, [md]) for md in pd_modes] + [('[LINEAR,EMAX]', ['LINEAR', 'EMAX']),
+                                                        ('[SIGMOID,LINEAR]', ['SIGMOID', 'LINEAR']), ('*', list(pd_modes))]
+        ipairs = [(a, b) for a in mode_forms for b in prod_forms]
+    else:
+        ipairs = [(('LINEAR', ['LINEAR']), b) for b in prod_forms]
+        ipairs += [(('[LINEAR,EMAX]', ['LINEAR', 'EMAX']), prod_forms[2]), (('*', list(pd_modes)), prod_forms[0])]
+    for (mt, mv), (pt, pv) in ipairs:
+        out.append(('pd', True) + _mfl_indirect(mt, mv, pt, pv))
+    # covariate effects: parameter list x covariate list x effect list, operation, optional (exploratory) effects
+    for op in (None, '+', '*'):
+        for optional in (False, True):
+            out.append(('cov', True) + _mfl_covariate(['CL'], ['WGT'], ['exp'], op, optional))
+    out.append(('cov', True) + _mfl_covariate(['CL', 'VC'], ['WGT', 'APGR'], ['lin', 'pow'], None, False))
+    out.append(('cov', True) + _mfl_covariate(['CL'], ['APGR'], None, None, True))   # '*' only for optional effects
+    out.append(('cov', True) + _mfl_covariate(['VC'], ['APGR'], ['cat'], None, False))
+    out.append(('cov', True) + _mfl_covariate(['VC', 'CL'], ['WGT'], ['pow'], None, False, let='FOO'))
+    if th:
+        for pars in (['CL'], ['VC', 'CL']):
+            for covs in (['APGR'], ['APGR', 'WGT']):
+                for fps in (['piece_lin'], ['exp', 'lin', 'pow'], None, ['cat', 'cat2']):
+                    for op, optional in ((None, True), ('+', False)):
+                        if fps is not None or optional:
+                            out.append(('cov', True) + _mfl_covariate(pars, covs, fps, op, optional))
+        out.append(('cov', True) + _mfl_join([_mfl_covariate(['CL'], ['WGT'], ['exp'], None, True),
+                                              _mfl_covariate(['VC'], ['APGR'], ['cat'], '+', False)]))
+    for ref in ('70', '1.5'):
+        out.append(('cov', False, f'ALLOMETRY(WGT,{ref})', [['ALLOMETRY', 'WGT', float(ref)]]))
+    return out
+
+
+_MFL_STARTS = {
+    'quick': {'pk': [('pheno', ['ABS_FO'], True)],
+              'pk_transits': [('pheno', ['ABS_FO'], True), ('moxo', ['LAG_OFF'], False)],
+              'pd': [('pheno', [], True)], 'met': [('pheno', ['ADD_METABOLITE'], True)],
+              'cov': [('pheno', [], True)]},
+    'thorough': {'pk': [('pheno', ['ABS_FO'], True), ('moxo', ['LAG_OFF'], True), ('pheno', [], False),
+                        ('moxo', [], False)],
+                 'pk_transits': [('pheno', ['ABS_FO'], True), ('moxo', ['LAG_OFF'], True), ('pheno', [], True),
+                                 ('moxo', [], False), ('pheno', ['ABS_ZO'], False), ('pheno', ['TRANSIT_3'], False)],
+                 'pd': [('pheno', [], True), ('pheno', ['ABS_FO'], False)],
+                 'met': [('pheno', ['ADD_METABOLITE'], True)],
+                 'cov': [('pheno', [], True), ('pheno', ['ABS_FO'], False)]},
+}
+
+
+def mfl_cases(tier):
+    cases = []
+    for group, class_route, text, keys in mfl_strings(tier):
+        for mname, start, with_class in _MFL_STARTS[tier][group]:
+            for route in (('statements', 'class') if class_route and with_class else ('statements',)):
+                cases.append({'model': mname, 'start': start, 'mfl': text, 'route': route, 'keys': keys})
+    return cases
+
+
+def _mfl_start_model(mname, start):
+    key = ('mfl_start', mname, tuple(start))
+    if key not in _MODEL_CACHE:
+        m = base_model(mname)
+        R = _requests()
+        for s in start:
+            m = pm().add_metabolite(m) if s == 'ADD_METABOLITE' else R[s][1](m)
+        _MODEL_CACHE[key] = m
+    return _MODEL_CACHE[key]
+
+
+def mfl_reference(key):
+    """the transformation a feature key names, as a call of the documented setter: callable(model) -> model"""
+    P = pm()
+    cat = key[0]
+    if cat == 'ABSORPTION':
+        return {'FO': P.set_first_order_absorption, 'ZO': P.set_zero_order_absorption,
+                'SEQ-ZO-FO': P.set_seq_zo_fo_absorption, 'INST': P.set_instantaneous_absorption}[key[1]]
+    if cat == 'ELIMINATION':
+        return {'FO': P.set_first_order_elimination, 'ZO': P.set_zero_order_elimination,
+                'MM': P.set_michaelis_menten_elimination, 'MIX-FO-MM': P.set_mixed_mm_fo_elimination}[key[1]]
+    if cat == 'LAGTIME':
+        return {'ON': P.add_lag_time, 'OFF': P.remove_lag_time}[key[1]]
+    if cat == 'TRANSITS':
+        n, depot = key[1], key[2]
+        if depot == 'DEPOT':
+            return lambda m: P.set_transit_compartments(m, n)
+        if depot == 'NODEPOT':
+            # the depot is not kept: it is converted into a transit compartment (one transit compartment more)
+            return lambda m: P.set_transit_compartments(m, n + 1, keep_depot=False)
+    if cat == 'PERIPHERALS':
+        if len(key) == 2:
+            return lambda m: P.set_peripheral_compartments(m, key[1])
+        return lambda m: P.set_peripheral_compartments(m, key[1], name=key[2])
+    if cat == 'DIRECT':
+        return lambda m: P.set_direct_effect(m, key[1].lower())
+    if cat == 'EFFECTCOMP':
+        return lambda m: P.add_effect_compartment(m, key[1].lower())
+    if cat == 'INDIRECT':
+        return lambda m: P.add_indirect_effect(m, key[1].lower(), {'PRODUCTION': True, 'DEGRADATION': False}[key[2]])
+    if cat == 'METABOLITE':
+        return lambda m: P.add_metabolite(m, presystemic={'PSC': True, 'BASIC': False}[key[1]])
+    if cat == 'COVARIATE':
+        _, par, cov, eff, op, what = key
+        if what == 'ADD':
+            return lambda m: P.add_covariate_effect(m, par, cov, eff, op)
+        if what == 'REMOVE':
+            return lambda m: P.remove_covariate_effect(m, par, cov)
+    if cat == 'ALLOMETRY':
+        return lambda m: P.add_allometry(m, allometric_variable=key[1], reference_value=key[2])
+    raise KeyError(key)
+
+
+_MFL_REF_CACHE = {}
+
+
+def _mfl_apply(fn, model):
+    try:
+        return 'model', fn(model)
+    except Exception as e:
+        return 'exception', e
+
+
+def _mfl_same(a, b):
+    """None if two results (of _mfl_apply) are the same, else a description"""
+    if a[0] != b[0]:
+        def show(r):
+            return f'raised {type(r[1]).__name__}: {str(r[1])[:120]}' if r[0] == 'exception' else 'gave a model'
+        return f'the feature function {show(a)}, the setter call {show(b)}'
+    if a[0] == 'exception':
+        if type(a[1]) is not type(b[1]):
+            return (f'the feature function raised {type(a[1]).__name__}: {str(a[1])[:120]}, the setter call '
+                    f'{type(b[1]).__name__}: {str(b[1])[:120]}')
+        return None
+    ma, mb = a[1], b[1]
+    for what in ('statements', 'parameters', 'random_variables', 'dependent_variables'):
+        if getattr(ma, what) != getattr(mb, what):
+            extra = ''
+            if what == 'statements':
+                try:
+                    extra = (f': compartments {list(ma.statements.ode_system.compartment_names)} vs '
+                             f'{list(mb.statements.ode_system.compartment_names)}; features {detect(ma)["mfl"]} vs '
+                             f'{detect(mb)["mfl"]}')
+                except Exception:
+                    extra = ''
+            elif what == 'parameters':
+                extra = (f': {[(p.name, float(p.init), p.fix) for p in ma.parameters if p not in mb.parameters]} vs '
+                         f'{[(p.name, float(p.init), p.fix) for p in mb.parameters if p not in ma.parameters]}')
+            return f'{what} differ{extra}'
+    return None
+
+
+def run_mfl_case(case):
+    from pharmpy.tools.mfl.parse import parse
+
+    m0 = _mfl_start_model(case['model'], case['start'])
+    text, route = case['mfl'], case['route']
+    expected = [tuple(k) for k in case['keys']]
+    tag = f"{case['model']}{''.join(' ; ' + s for s in case['start'])}: {text!r} ({route})"
+    fail = _Fails(_mfl_fid(expected[0]), tag)
+    try:
+        if route == 'statements':
+            from pharmpy.tools.mfl.helpers import all_funcs
+
+            fns = all_funcs(m0, parse(text))
+        else:
+            fns = parse(text, mfl_class=True).convert_to_funcs(model=m0)
+    except Exception as e:
+        fail('a valid MFL statement list is converted into feature functions without an exception', _exc_detail(e))
+        return {'nontrivial': True, 'fails': fail.items, 'refused': False}
+    keys = [tuple(k) for k in fns]
+    if route == 'statements':
+        # (the ModelFeatures route fills in the defaults of the categories that are not mentioned)
+        wrong = [k for k in keys if k not in expected] + [k for k in expected if k not in keys]
+        if wrong or len(keys) != len(set(keys)):
+            fail('the feature keys of a statement list are exactly the features it describes (lists, ranges and '
+                 'wildcards expanded; omitted options take their documented default)',
+                 f'expected {expected}, got {keys}', fid=_mfl_fid(wrong[0] if wrong else keys[0]))
+    nontriv = False
+    for key in expected:
+        if key not in fns:
+            continue
+        ck = (case['model'], tuple(case['start']), key)
+        if ck not in _MFL_REF_CACHE:
+            _MFL_REF_CACHE[ck] = _mfl_apply(mfl_reference(key), m0)
+        want = _MFL_REF_CACHE[ck]
+        got = _mfl_apply(fns[key], m0)
+        nontriv = True
+        diff = _mfl_same(got, want)
+        if diff:
+            fail('the function stored under a feature key applies the transformation the key names: the same model '
+                 'as the documented setter call (or the same refusal), whatever else the statement list contains',
+                 f'key {key}: {diff}', fid=_mfl_fid(key))
+    return {'nontrivial': nontriv, 'fails': fail.items, 'refused': False}
+
+
 def run_structural_case(case, tier='quick'):
+    if 'mfl' in case:
+        return run_mfl_case(case)
     K = 3
     R = _requests()
     m = base_model(case['model'])
@@ -3794,6 +4601,12 @@ def bounded_structural_setters(tier):
     pm()
     for b in ('pheno', 'moxo'):
         base_model(b)
+    for starts in _MFL_STARTS[tier].values():
+        for mname, start, _ in starts:
+            try:
+                _mfl_start_model(mname, start)
+            except Exception:
+                pass
     cases = structural_cases(tier)
     results = _pool_map(_structural_worker, [(c, tier) for c in cases])
     nontriv, fails = _collect(results, 'bounded_structural_setters_replay')
@@ -3804,7 +4617,21 @@ def bounded_structural_setters(tier):
                  + (' and all sequences of 3 requests from 3 different categories' if tier == 'thorough' else '')
                  + ' over the 18 requests {absorption FO/ZO/SEQ-ZO-FO/INST, elimination FO/ZO/MM/MIX-FO-MM, peripherals '
                    '0/1/2, transits 0/1/3, lag time on/off, bioavailability on/off}; contract checked at the last '
-                   'request, with f;f and f;undo',
+                   'request, with f;f and f;undo; '
+                 + f'{len(mfl_strings(tier))} MFL statement lists (every feature category: each option alone, wildcard'
+                 + (', lists in both orders' if tier == 'thorough' else '')
+                 + '; TRANSITS counts x depot option omitted / DEPOT / NODEPOT / lists in both orders / *, several '
+                   'TRANSITS statements with different options in either order; PERIPHERALS counts / ranges x DRUG / MET / '
+                   '*; INDIRECTEFFECT modes x production / degradation / *; COVARIATE parameter, covariate and effect '
+                   'lists, operations, optional effects, LET; ALLOMETRY; a whole modelsearch search space) turned into '
+                   'feature functions by all_funcs(parse(s)) and by parse(s, mfl_class=True).convert_to_funcs(), every '
+                   'function applied to '
+                 + ('pheno and moxo as shipped, pheno with first-order absorption, moxo without lag time (transits also '
+                    'pheno with zero-order absorption / 3 transits), pheno with metabolite'
+                    if tier == 'thorough' else
+                    'pheno with first-order absorption (transits also moxo without lag time), pheno as shipped (PD, '
+                    'covariates), pheno with metabolite')
+                 + f' and compared with the setter call the key names: {len(mfl_cases(tier))} cases',
         'samples': [repr(cases[i]) for i in (0, len(cases) // 2, len(cases) - 1)],
         'fails': fails,
     }
